@@ -91,6 +91,19 @@ CHECKS.update({
    note='No value-symbolic contract exists for fixed numeric code words; contract-based deduction contributes only the parse_simple_pauli obligations (finite domain, exact evaluation). Everything else is labelled bounded/exhaustive. Trusted: NumPy float64 with tolerance 1e-9 and the independent oracles in contracts/c19.py.',
    tech='exhaustive run-time evaluation of the contracts over the finite quantifier (bounded stand-in, exhaustive) + exact evaluation of the parse_simple_pauli contract on its finite domain'),
 })
+CHECKS.update({
+ 'C01': dict(level='other', ref='DESIGN.md §7 C01',
+   text='Proved (numpy branch, all real theta, d=2,3 (4), every rank, batch (2,) == per-sample): sphere quotient/coordinate unit norm, ball norm < 1 (QF_NRA), open interval membership, exp positivity, simplex via sphere, trace-one PSD cholesky == L L^dagger with normalised L of rank columns, '
+        'ensemble == convex mixture of normalised projectors, symmetric/Hermitian matrix with all trace0/norm1 options, the generator handed to expm is skew-Hermitian traceless, Cayley orthogonal/unitary for d=2 (exact inverse), Stiefel qr plumbing / polar rank 1 / real Euler chart, '
+        'nn.Module.forward delegates to the functional map on the module parameters. Bounded: LAPACK-backed steps, all torch branches, float32, dims up to 5 (6), SeparableDensityMatrix / QuantumChannel.',
+   note=ALG_NOTE + ' Assumed contracts of externals: scipy.linalg.expm unitary with det 1 on skew-Hermitian traceless input, numpy.linalg.qr Q-factor orthonormal, softmax a probability vector, 0<expit<1, softplus>0.' + BOUNDED_NOTE,
+   tech=TECH + 'z3 QF_NRA for inequalities with root/trig/exp axioms; run-time contracts over the full option lattice as bounded stand-in'),
+ 'C02': dict(level='other', ref='DESIGN.md §7 C02',
+   text='Proved: the linear map theta -> generator of the exp / Cayley charts is injective (exact rank of its coefficient matrix, real and complex, d=2..5); parameter counts of every nn.Module constructor equal manifold dimension + documented gauge for d<=8, r<=d; '
+        'for the algebraic charts (sphere quotient, ball, simplex, symmetric matrix, Cholesky PSD, Cayley d<=3, polar rank 1) the exact symbolic Jacobian of the real function has rank == manifold dimension at rational points. Bounded: autograd Jacobian rank for every class/option incl. expm/QR/polar/Euler and torch.',
+   note=ALG_NOTE + ' The rank at a point is a lower bound of the generic rank, the manifold dimension (C01) the upper bound. Where the Jacobian entries are irrational the rank is taken from a 60-digit SVD (labelled, not exact).' + BOUNDED_NOTE,
+   tech=TECH + 'symbolic differentiation of the executed real function, exact rank over Q; autograd Jacobians with singular-value gap as bounded stand-in'),
+})
 PENDING = 'contracts for this property are not built yet in this revision (work in progress, see DESIGN.md §7/§10)'
 ALL = [f'C{i:02d}' for i in range(1, 21)]
 
